@@ -14,9 +14,10 @@ class RaisesClause:
 
 
 class LoopSpec:
-    def __init__(self, ordinal, modifies, locals_, inv, tags, unroll=None):
+    def __init__(self, ordinal, modifies, locals_, inv, tags, unroll=None, over=None):
         self.ordinal, self.modifies, self.locals, self.inv, self.tags = ordinal, modifies, locals_, inv, tags
         self.unroll = unroll
+        self.over = over      # source text of the iterated expression (whitespace-normalised), or None: keyed by ordinal
         self.step = None      # fn(c, L, head) -> (name, term): what ONE iteration does (head state -> end of body)
 
 
@@ -53,9 +54,9 @@ class Contract:
             return fn
         return deco
 
-    def loop(self, ordinal, modifies=(), locals_=(), tags=(), unroll=None):
+    def loop(self, ordinal, modifies=(), locals_=(), tags=(), unroll=None, over=None):
         def deco(fn):
-            self.loops[ordinal] = LoopSpec(ordinal, list(modifies), list(locals_), fn, list(tags), unroll)
+            self.loops[ordinal] = LoopSpec(ordinal, list(modifies), list(locals_), fn, list(tags), unroll, over)
             return fn
         return deco
 
